@@ -291,4 +291,133 @@ def machine : Machine := { σ := St, name := "forceclean", init := fun _ => some
 
 end C10Force
 
-def main (args : List String) : IO UInt32 := runMachines [C10.machine, C10Force.machine] args
+/-! ### inside an eviction (lib/store/base, harness with a parking entry factory) -/
+namespace C10Evict
+
+structure ESnap where
+  name : String
+  data : Bool
+  persist : Option Bool
+  deriving BEq
+
+def esnap? (tok : String) : Option ESnap :=
+  match tok.splitOn ":" with
+  | [n, sz, p, _] => do
+    let p ← if p = "-" then some none else if p = "1" then some (some true) else if p = "0" then some (some false) else none
+    pure { name := n, data := sz != "nodata", persist := p }
+  | _ => none
+
+def esnapTok (n : String) (f : File) : String :=
+  s!"{n}:{f.size}:" ++ (match f.persist with | none => "-" | some true => "1" | some false => "0") ++ ":" ++
+    (match f.lat with | none => "-" | some l => toString l)
+
+structure St where
+  m : State
+  prev : List ESnap := []
+  acked : List String := []       -- names whose persist=true was acknowledged by the last record
+  cleared : List String := []     -- names whose flag the last record may have cleared or that it deleted on request
+
+def init (toks : List String) : Option St := do
+  let cap ← (kv? toks "cap").bind nat?
+  let now ← (kv? toks "now").bind int?
+  pure { m := FileCleanup.init cap now }
+
+def resTok : Res → String
+  | .ok => "ok" | .notExist => "notexist" | .exist => "exist" | .persisted => "persisted"
+
+/-- one plain operation `kind name` on the model -/
+def simple (m : State) (kind n : String) : Option (State × Res) :=
+  match kind with
+  | "read" => some (access m n)
+  | "stat" => some (peek m n)
+  | "persist1" => some (setPersist m n true)
+  | "persist0" => some (setPersist m n false)
+  | "delete" => some (FileCleanup.delete m n)
+  | _ => none
+
+def winClass (kind : String) (r : String) : String :=
+  if kind = "delete" ∧ (r = "ok" ∨ r = "notexist") then "done" else r
+
+def wop? (tok : String) : Option (String × String) :=
+  match tok.splitOn ":" with
+  | [k, n] => some (k, n)
+  | _ => none
+
+/-- names whose persist=true was acknowledged according to the implementation's results -/
+def ackedOf (args impl : List String) : List String :=
+  match args with
+  | ["persist1", n] => if impl = ["ok"] then [n] else []
+  | ["evictwin", _, _, _, _, w] =>
+    let ws := (list? w).filterMap wop?
+    let rs := ((kv? impl "w").map list?).getD []
+    (ws.zip rs).filterMap fun ((k, n), r) => if k = "persist1" ∧ r = "ok" then some n else none
+  | _ => []
+
+def clearedOf (args : List String) : List String :=
+  match args with
+  | ["persist0", n] => [n]
+  | ["delete", n] => [n]
+  | ["evictwin", _, _, _, _, w] => ((list? w).filterMap wop?).filterMap fun (k, n) => if k = "persist0" ∨ k = "delete" then some n else none
+  | _ => []
+
+def step (s : St) (kind : String) (args impl : List String) : Option (St × StepOut) :=
+  if kind ≠ "op" then none else
+  let fin (m : State) (obs : List String) (br : String) : Option (St × StepOut) :=
+    some ({ s with m, acked := ackedOf args impl, cleared := clearedOf args }, { obs, branch := br })
+  match args with
+  | ["create", n, size] => do
+    let size ← nat? size
+    let (m, r) := create s.m n size
+    fin m [resTok r] s!"create.{resTok r}"
+  | ["tick", dt] => do
+    let dt ← nat? dt
+    fin { s.m with now := s.m.now + dt } ["ok"] "tick"
+  | ["evictwin", _mode, trigger, size, evictee, w] => do
+    let size ← nat? size
+    let ws ← (list? w).mapM wop?
+    let armed : Bool := match KV.get s.m.files evictee with | some f => !isPersisted f | none => true
+    let fresh : Bool := !KV.has s.m.map trigger && !KV.has s.m.files trigger
+    let s1 := createInsert s.m trigger size
+    let parks : Bool := armed && fresh && s1.cap != 0 && decide (s1.map.length > s1.cap) && (s1.map.getLast?.map (·.1)) == some evictee
+    if !parks then
+      -- no window: the creation (with whatever eviction it causes) completes, then the operations run one by one
+      let (m0, r0) := create s.m trigger size
+      let (m, rs) ← ws.foldlM (fun (acc : State × List String) (kn : String × String) => do
+          let (m', r) ← simple acc.1 kn.1 kn.2
+          pure (m', acc.2 ++ [winClass kn.1 (resTok r)])) (m0, [])
+      fin m ["nopark", s!"create={resTok r0}", s!"w={listTok rs}"] "evictwin.nopark"
+    else
+      -- the eviction holds the evictee's entry lock: operations on it wait and then find the entry gone;
+      -- operations on other names run on the state before the file is removed
+      let (m, rs) ← ws.foldlM (fun (acc : State × List String) (kn : String × String) => do
+          if kn.2 = evictee then
+            pure (acc.1, acc.2 ++ [if kn.1 = "delete" then "done" else "notexist"])
+          else
+            let (m', r) ← simple acc.1 kn.1 kn.2
+            pure (m', acc.2 ++ [winClass kn.1 (resTok r)])) (s1, [])
+      let x := xrun .unmapLast { s := m, ev := .locked evictee } [.check, .finish]
+      let onEvictee := ws.any (·.2 = evictee)
+      fin x.s ["parked", "create=ok", s!"w={listTok rs}"] (if onEvictee then "evictwin.parked.contended" else "evictwin.parked")
+  | [k, n] =>
+    if k = "fs" then none else do
+    let (m, r) ← simple s.m k n
+    fin m [resTok r] s!"{k}.{resTok r}"
+  | ["fs"] =>
+    let mine := (listNames s.m).filterMap fun n => (KV.get s.m.files n).map (esnapTok n)
+    match (impl.head?.map list?).getD [] |>.mapM esnap? with
+    | none => none
+    | some next =>
+      let hasData (n : String) : Bool := next.any (fun e => e.name == n && e.data)
+      let pf1 := (s.acked.filter (fun n => !hasData n)).map fun n =>
+        s!"side=impl key=persist-acked-without-data the persist flag of {n} was set and acknowledged, but its data file is not on disk afterwards"
+      let pf2 := ((s.prev.filter (fun p => p.data && p.persist == some true && !(s.cleared.contains p.name))).filter
+          (fun p => !hasData p.name)).map fun p =>
+        s!"side=impl key=persisted-file-removed {p.name} was marked persist=true and its data is gone"
+      some ({ s with prev := next, acked := [], cleared := [] }, { obs := [listTok mine], branch := "fs", propfails := pf1 ++ pf2 })
+  | _ => none
+
+def machine : Machine := { σ := St, name := "evict", init := init, step := step }
+
+end C10Evict
+
+def main (args : List String) : IO UInt32 := runMachines [C10.machine, C10Force.machine, C10Evict.machine] args
